@@ -8,7 +8,7 @@ from vlib import (Inconclusive, Scratch, Verdict, copy_specs, go_build, log, mak
                   validate_sharded, write_evidence, NCPU)
 
 FAMILY = "hlog"
-KINDS = ["url", "method", "request", "remoteaddr", "remoteip", "useragent", "referer", "proto", "custom", "host", "httpversion", "requestid", "etag", "respheader", "hosttrim"]
+KINDS = ["url", "method", "request", "remoteaddr", "remoteip", "useragent", "referer", "proto", "custom", "host", "httpversion", "requestid", "etag", "respheader", "hosttrim", "customlc", "customuc"]
 CHAINS = {"C2": [["url", "method"], ["useragent", "remoteaddr", "custom"]],
           "C3": [["url", "method", "host"], ["request", "remoteip"], ["referer", "proto", "url"]],
           "C3b": [["url"], ["url", "method", "useragent", "custom"], []],
